@@ -3,8 +3,8 @@ _c20_common = dict(harness="C20_readonly.cpp", entries=["harness_c20"], units=CO
 PROPS["C20"] = dict(
   jobs=[
     dict(name="c20-core", witness_any=True, const_coverage=["14TopologyKernel", "15ResourceManager"], **_c20_common,
-         shards={"quick": [{0: B_TET, 1: g, 2: p, 4: sl} for g in range(6) for p in (0, 1) for sl in (range(4) if 1 <= g <= 4 else [0])],
-                 "thorough": [{0: b, 1: g, 2: p, 4: sl} for b in (B_TET2_FACE, B_LOWDIM, B_HEX) for g in range(6) for p in (0, 1) for sl in (range(4) if 1 <= g <= 4 else [0])]},
+         shards={"quick": [{0: B_TET, 1: g, 2: p, 4: sl} for g in range(6) for p in (0, 1) for sl in (range(4) if 1 <= g <= 4 else [0]) if p == 1 or g in (0, 5)],   # groups 1-4 without pending deletion: thorough
+                 "thorough": [{0: B_TET, 1: g, 2: 0, 4: sl} for g in range(1, 5) for sl in range(4)] + [{0: b, 1: g, 2: p, 4: sl} for b in (B_TET2_FACE, B_LOWDIM, B_HEX) for g in range(6) for p in (0, 1) for sl in (range(4) if 1 <= g <= 4 else [0])]},
          bounds="one tetrahedron (thorough: two tets, low-dimensional mesh, hexahedron), with and without a pending deferred deletion; after the epoch mark each query group runs the const API through a const reference: "
                 "group 0 counts/flags/definitions/handle accessors with SYMBOLIC handles; groups 1-5 lookups, all 26 circulators (construction, ++ over a full lap, --), entity/boundary iterators and ranges with every centre enumerated. "
                 "Every store, memcpy/memset/memmove destination, atomic RMW/cmpxchg and operator delete executed in ANY function is instrumented and asserted not to designate the mesh object, a heap block allocated before the epoch, or any writable object with static storage duration (globals, function-local statics)"),
